@@ -47,7 +47,7 @@ def meta(tier, seed):
                   "LinGreedy x.beta; LinUCB x.beta + alpha*sqrt(x^T A^-1 x); LinTS(alpha=1e-9) x.beta within 1e-6; "
                   "unobserved arm beta = 0, A^-1 = I/lambda; scale=True standardises per arm (population mean/std, "
                   "zero variance -> 1), an arm without data sees the raw query",
-        "bounds": {"rows_max": 3 if tier == "quick" else 4, "row_alphabet": 4 if tier == "quick" else 6, "d": [1, 2, 3], "lambdas": LAMBDAS,
+        "bounds": {"rows_max": 3 if tier == "quick" else 4, "row_alphabet": 4 if tier == "quick" else 5, "d": [1, 2, 3], "lambdas": LAMBDAS,
                    "policies": [p[0] for p in POLICIES], "query_rows": [1, 2, 3],
                    "long_history": "one 703-row single-fit history per (policy, lambda, scale, d)",
                    "variants": ["no arm change", "add_arm(3) at the end", "add_arm(3) after the first call, last row relabelled to arm 3"]},
@@ -199,7 +199,7 @@ def run_shard(shard):
     cfg = {"arms": [1, 2], "lp": lp, "np": None, "seed": shard["seed"], "n_jobs": 1, "backend": None}
     alpha = kw.get("alpha", 0)
     acc = report.Acc(ID, replay, shard)
-    rows = ROWS[d] if shard["nmax"] > 3 else [ROWS[d][i] for i in (0, 1, 3, 4)]
+    rows = ROWS[d][:5] if shard["nmax"] > 3 else [ROWS[d][i] for i in (0, 1, 3, 4)]
     for n in range(1, shard["nmax"] + 1):
         for seq in itertools.product(rows, repeat=n):
             for hist, variant in histories(list(seq), scale):
